@@ -8,6 +8,7 @@ import (
 	"io"
 	"net"
 	"os"
+	"sort"
 	"strings"
 	"sync"
 	"testing"
@@ -430,6 +431,13 @@ type rawClient struct {
 	// the two ends would wait for each other).
 	BackendHalfClose bool `json:"backend_half_close,omitempty"`
 	CGate            int  `json:"cgate,omitempty"`
+	// dns-tcp, Pipelined (RFC 7766 6.2.1.1): the client does not wait for a reply before
+	// its next query: the framed queries of the connection form one stream that is
+	// written in the pieces PCuts gives (offsets into the whole stream, message
+	// boundaries mean nothing to them; none = a single write; the per-message Cuts are
+	// not used), the replies are read as they come. Lock-step otherwise.
+	Pipelined bool  `json:"pipelined,omitempty"`
+	PCuts     []int `json:"pcuts,omitempty"`
 }
 
 type rawCase struct {
@@ -999,6 +1007,9 @@ func runDNSTCP(ci int, addr string, cl rawClient, payloads [][]byte) *rawResult 
 	defer c.Close()
 	c.(*net.TCPConn).SetNoDelay(true)
 	res.local = c.LocalAddr()
+	if cl.Pipelined {
+		return runDNSTCPPipelined(c.(*net.TCPConn), cl, payloads, res)
+	}
 	for j, m := range cl.Msgs {
 		w := make([]byte, 2+len(payloads[j]))
 		binary.BigEndian.PutUint16(w, uint16(len(payloads[j])))
@@ -1031,6 +1042,98 @@ func runDNSTCP(ci int, addr string, cl rawClient, payloads [][]byte) *rawResult 
 		res.got = append(res.got, [][]byte{reply})
 	}
 	return res
+}
+
+// runDNSTCPPipelined writes the framed queries of the connection as one stream, cut
+// where the case says, while the replies are read as they arrive (writer and reader run
+// side by side: neither end of the relay is ever waited for with full socket buffers).
+func runDNSTCPPipelined(c *net.TCPConn, cl rawClient, payloads [][]byte, res *rawResult) *rawResult {
+	var stream []byte
+	for j := range cl.Msgs {
+		var lb [2]byte
+		binary.BigEndian.PutUint16(lb[:], uint16(len(payloads[j])))
+		stream = append(append(stream, lb[:]...), payloads[j]...)
+	}
+	werr := make(chan error, 1)
+	go func() {
+		for i, part := range split(stream, cl.PCuts) {
+			if i > 0 && i <= 2 {
+				time.Sleep(time.Millisecond)
+			}
+			c.SetWriteDeadline(time.Now().Add(30 * time.Second))
+			if _, err := c.Write(part); err != nil {
+				werr <- err
+				return
+			}
+		}
+		if cl.HalfClose {
+			// nothing more to ask: the client ends its sending side
+			c.CloseWrite()
+		}
+		werr <- nil
+	}()
+	// all queries count as sent (the figure only words the "did not arrive" message)
+	res.sent = len(cl.Msgs)
+	for j := range cl.Msgs {
+		c.SetReadDeadline(time.Now().Add(waitBound))
+		var lb [2]byte
+		if _, err := io.ReadFull(c, lb[:]); err != nil {
+			res.err = fmt.Errorf("pipelined: reply to message %d of %d (%d bytes) did not reach the client: %v", j, len(cl.Msgs), len(payloads[j]), err)
+			break
+		}
+		reply := make([]byte, binary.BigEndian.Uint16(lb[:]))
+		if n, err := io.ReadFull(c, reply); err != nil {
+			res.err = fmt.Errorf("pipelined: reply to message %d: length prefix %d but %d bytes followed: %v", j, len(reply), n, err)
+			break
+		}
+		res.got = append(res.got, [][]byte{reply})
+	}
+	if res.err != nil {
+		c.SetWriteDeadline(time.Now()) // do not leave the writer behind
+	}
+	if err := <-werr; err != nil && res.err == nil {
+		res.err = fmt.Errorf("pipelined: client could not write its queries: %v", err)
+	}
+	if res.err == nil {
+		// anything nobody asked for?
+		c.SetReadDeadline(time.Now().Add(5 * time.Millisecond))
+		var b [1]byte
+		if n, _ := c.Read(b[:]); n > 0 {
+			res.err = fmt.Errorf("pipelined: the client received bytes beyond the %d replies (first: 0x%02x)", len(cl.Msgs), b[0])
+		}
+	}
+	return res
+}
+
+// genStreamCuts draws write boundaries for a stream made of framed messages that end at
+// the offsets ends (the last one is the stream's length): none (a single write), exactly
+// the message boundaries, near them (inside a length prefix, a byte before / after a
+// boundary) or anywhere.
+func genStreamCuts(t *rapid.T, label string, ends []int) []int {
+	total := ends[len(ends)-1]
+	var out []int
+	switch rapid.IntRange(0, 5).Draw(t, label+"-mode") {
+	case 0, 1:
+		return nil
+	case 2:
+		out = append(out, ends[:len(ends)-1]...)
+	case 3, 4:
+		k := rapid.IntRange(1, 4).Draw(t, label+"-k")
+		for i := 0; i < k; i++ {
+			e := rapid.SampledFrom(ends).Draw(t, label+"-at")
+			out = append(out, e+rapid.IntRange(-3, 3).Draw(t, label+"-off"))
+		}
+	default:
+		out = genCuts(t, label, total)
+	}
+	sort.Ints(out)
+	var clean []int
+	for _, x := range out {
+		if x > 0 && x < total && (len(clean) == 0 || clean[len(clean)-1] != x) {
+			clean = append(clean, x)
+		}
+	}
+	return clean
 }
 
 // ---- generators ----
@@ -1174,6 +1277,26 @@ func genRawCase(t *rapid.T, kind string) rawCase {
 				cl.Msgs = append(cl.Msgs, m)
 			}
 			cl.HalfClose = rapid.IntRange(0, 2).Draw(t, "half-close") == 0
+			if rapid.Bool().Draw(t, "pipelined") {
+				// the same queries, not in lock-step: one stream, cut without regard
+				// to the message boundaries (1 in 3 with a query more)
+				if k < 2 || rapid.IntRange(0, 2).Draw(t, "one-more") == 0 {
+					m := rawMsg{Data: bodySpec{Seed: rapid.IntRange(0, 1000).Draw(t, "seed")}, DNS: genDNSQuery(t)}
+					r := genDatagram(t, "reply")
+					m.Replies = []bodySpec{r}
+					m.RCuts = genCuts(t, "rcut", 2+4+r.Len)
+					cl.Msgs = append(cl.Msgs, m)
+				}
+				cl.Pipelined = true
+				var ends []int
+				at := 0
+				for j := range cl.Msgs {
+					cl.Msgs[j].Cuts = nil
+					at += 2 + len(cl.Msgs[j].DNS.wire(0))
+					ends = append(ends, at)
+				}
+				cl.PCuts = genStreamCuts(t, "pcut", ends)
+			}
 		}
 		c.Clients = append(c.Clients, cl)
 	}
@@ -1211,7 +1334,7 @@ func (c rawCase) nontrivial() bool {
 	return false
 }
 
-const rawRule = "copy over tcp: two copy services (own director with a port / the port-less director shared with two http-proxy ports, drawn per client), 1..3 concurrent clients, each one stream (tag byte + 0..64 KiB random / text / look-alike bytes) written in 1..5 pieces, backend answers with a stream 0..64 KiB (1 in 10: up to 1 MiB) in 1..5 pieces; schedule: the client half-closes after its last byte (1 in 2), the backend replies from the first byte on or holds a drawn reply piece and the rest back until the client stream is complete and (if so) half-closed, plus 0..40 ms; copy over udp: 1..4 datagrams per client (0..60000 bytes), 0..2 reply datagrams each; dns-proxy over udp: 1..4 queries per client (own encoder: opcode, RD, 1..2 questions, 0..4 labels, 9 qtypes, optional OPT record; 1 in 7 is an arbitrary non-DNS datagram for which only non-corruption is asserted), one reply datagram 4..4004 bytes each; dns-proxy over tcp: 1..3 length-prefixed queries per connection, natural size or padded (EDNS0 padding option) to a drawn size 600..65535 with the boundary values 65531..65535 / powers of two favoured, replies likewise up to 65535 bytes, cuts in the first 40 bytes or anywhere, reply written in 1..5 pieces, client half-closes after its last query (1 in 3); oracle: backend received exactly the client's bytes, client received exactly the backend's, events attributed to the client's address, decoy untouched; non-trivial = a non-empty stream/datagram or >=2 datagrams on one client"
+const rawRule = "copy over tcp: two copy services (own director with a port / the port-less director shared with two http-proxy ports, drawn per client), 1..3 concurrent clients, each one stream (tag byte + 0..64 KiB random / text / look-alike bytes) written in 1..5 pieces, backend answers with a stream 0..64 KiB (1 in 10: up to 1 MiB) in 1..5 pieces; schedule: the client half-closes after its last byte (1 in 2), the backend replies from the first byte on or holds a drawn reply piece and the rest back until the client stream is complete and (if so) half-closed, plus 0..40 ms; copy over udp: 1..4 datagrams per client (0..60000 bytes), 0..2 reply datagrams each; dns-proxy over udp: 1..4 queries per client (own encoder: opcode, RD, 1..2 questions, 0..4 labels, 9 qtypes, optional OPT record; 1 in 7 is an arbitrary non-DNS datagram for which only non-corruption is asserted), one reply datagram 4..4004 bytes each; dns-proxy over tcp: 1..3 length-prefixed queries per connection, natural size or padded (EDNS0 padding option) to a drawn size 600..65535 with the boundary values 65531..65535 / powers of two favoured, replies likewise up to 65535 bytes, cuts in the first 40 bytes or anywhere, reply written in 1..5 pieces, client half-closes after its last query (1 in 3), lock-step (a query is written after the reply to the one before was read) or pipelined (1 in 2: the 2..4 framed queries of the connection are one stream written in a single write, cut at / within 3 bytes of the message boundaries or anywhere, replies read as they come); oracle: backend received exactly the client's bytes, client received exactly the backend's, events attributed to the client's address, decoy untouched; non-trivial = a non-empty stream/datagram or >=2 datagrams on one client"
 
 func runRaw(t *testing.T, name, kind string, checks int) {
 	r := vlib.Open(prop)
@@ -1256,6 +1379,16 @@ func runRaw(t *testing.T, name, kind string, checks int) {
 			for _, cl := range c.Clients {
 				if cl.HalfClose {
 					r.Label("dns-tcp/client-half-close", 1)
+				}
+				if cl.Pipelined {
+					r.Label("dns-tcp/pipelined", 1)
+					if len(cl.PCuts) == 0 {
+						r.Label("dns-tcp/pipelined/one-write", 1)
+					} else {
+						r.Label("dns-tcp/pipelined/cut", 1)
+					}
+				} else {
+					r.Label("dns-tcp/lock-step", 1)
 				}
 				for _, m := range cl.Msgs {
 					if n := len(m.DNS.wire(0)); n >= 65534 {
